@@ -71,7 +71,8 @@ pub struct CanonicalFormatter {
 /// ```
 #[derive(Debug, Default)]
 struct Object {
-    obj: BTreeMap<Vec<u8>, Vec<u8>>,
+    /// Members keyed by the unescaped key (the sort key), holding the key and value as written.
+    obj: BTreeMap<Vec<u8>, (Vec<u8>, Vec<u8>)>,
     next_key: Vec<u8>,
     next_value: Vec<u8>,
     key_done: bool,
@@ -238,7 +239,7 @@ impl Formatter for CanonicalFormatter {
         let mut writer = self.writer(writer);
         let mut first = true;
 
-        for (key, value) in object.obj {
+        for (_, (key, value)) in object.obj {
             CompactFormatter.begin_object_key(&mut writer, first)?;
             writer.write_all(&key)?;
             CompactFormatter.end_object_key(&mut writer)?;
@@ -273,7 +274,7 @@ impl Formatter for CanonicalFormatter {
         let object = self.obj_mut()?;
         let key = std::mem::take(&mut object.next_key);
         let value = std::mem::take(&mut object.next_value);
-        object.obj.insert(key, value);
+        object.obj.insert(sort_key(&key), (key, value));
         Ok(())
     }
 
@@ -289,6 +290,25 @@ impl Formatter for CanonicalFormatter {
         serde_json::from_str::<serde_json::Value>(fragment)?.serialize(&mut ser)?;
         Ok(())
     }
+}
+
+/// Object members are ordered by their keys, not by the quoted and escaped form in which the keys
+/// are written, so undo the quoting and the two escapes (`\"` and `\\`) to get the sort key.
+fn sort_key(written_key: &[u8]) -> Vec<u8> {
+    let inner = written_key
+        .strip_prefix(b"\"")
+        .and_then(|key| key.strip_suffix(b"\""))
+        .unwrap_or(written_key);
+    let mut key = Vec::with_capacity(inner.len());
+    let mut bytes = inner.iter();
+    while let Some(&byte) = bytes.next() {
+        if byte == b'\\' {
+            key.extend(bytes.next());
+        } else {
+            key.push(byte);
+        }
+    }
+    key
 }
 
 #[cfg(test)]
